@@ -63,6 +63,11 @@ def run_variant(v, repo):
                 return v, "BAD-VARIANT", f"does not compile: {e}"
             open(path, "w").write(src)
         env = dict(os.environ, BAIZE_REPO=tmp, BAIZE_VERIF_OUT=os.path.join(tmp, "_out"))
+        if v.get("base_patch") and v["expect"] == "violation":
+            # a rule-level test on a refactored layout: does the RULE still find the defect there? The check-level demotion of
+            # absence-type findings in restructured functions (check.restructure_precondition) is switched off for it; what the
+            # whole check answers on refactored trees is measured by selftest/refactorings.py
+            env["BAIZE_STRICT_ABSENCE"] = "1"
         r = subprocess.run([sys.executable, os.path.join(VERIF, "sa", "check.py"), v["prop"], "--tier", "quick"],
                            capture_output=True, text=True, env=env, timeout=300)
         out = r.stdout + r.stderr
